@@ -3,6 +3,8 @@
 package checks
 
 import (
+	"fmt"
+	"strings"
 	"testing"
 
 	"pgregory.net/rapid"
@@ -86,6 +88,42 @@ func TestC02(t *testing.T) {
 			}
 		}, nil)
 	}
+
+	// the feature lattice of C01, this time executed: every single feature, and feature pairs (every 5th pair in
+	// the quick tier, offset by the seed; all pairs in the thorough tier), each probed and compared with the model
+	fs := features()
+	var lattice []behMember
+	skip := func(i int) bool { return strings.HasPrefix(fs[i].name, "alias:equals-template-import:") } // open known finding of C01
+	for i := range fs {
+		idx++
+		if !ev.Mine(idx) || skip(i) {
+			continue
+		}
+		m := latticeMember(fs, []int{i}, false, false)
+		merged := ref.Merge(m.Files...)
+		lattice = append(lattice, behMember{Files: m.Files, Script: scriptAll(merged), Labels: m.Labels})
+	}
+	every := pick(5, 1)
+	for i := range fs {
+		for j := i + 1; j < len(fs); j++ {
+			idx++
+			if !ev.Mine(idx) || skip(i) || skip(j) || (i*131+j*17+ev.Seed())%every != 0 {
+				continue
+			}
+			m := latticeMember(fs, []int{i, j}, false, (i+j)%2 == 0)
+			merged := ref.Merge(m.Files...)
+			lattice = append(lattice, behMember{Files: m.Files, Script: scriptAll(merged), Labels: m.Labels})
+		}
+	}
+	for len(lattice) > 0 {
+		n := min(32, len(lattice))
+		behBatch(t, behCase{Members: lattice[:n]}, c02NonTrivial, c02Check, nil)
+		lattice = lattice[n:]
+		if deadlinePassed() {
+			return
+		}
+	}
+	col.Exhaustive(fmt.Sprintf("feature lattice executed against the model: all %d single features", len(fs)))
 
 	batch := pick(20, 32)
 	setRapidChecks(pick(5, 50))
